@@ -221,7 +221,21 @@ def draw_frame(ch, label="A"):
     # the set of columns varies from one frame to the next
     layout = ch.choice("w", ["a,num,b", "a,num", "num,b", "b,num,a"], "layout" + label)
     df = pandas.DataFrame({k: cols[k] for k in layout.split(",")})
-    return Data("frame", df, None, None, df, {"n": n, "data_seed": seed, "kind": "frame", "cats": [cats_a, cats_b], "columns": layout})
+    # the batch to transform: the training rows, then rows holding category
+    # values that were not seen at training time (skip_errors decides what
+    # happens to them; whatever it is, it is a function of the row)
+    m = ch.integer("w", 0, 4, "unseen-rows" + label)
+    if m:
+        extra = {
+            "a": pandas.Series([(cats_a + ["new-a", "other-a"])[i] for i in rs.randint(0, len(cats_a) + 2, m)], dtype=object),
+            "num": rs.randn(m),
+            "b": pandas.Series([(cats_b + ["new-b"])[i] for i in rs.randint(0, len(cats_b) + 1, m)], dtype=object),
+        }
+        order = rs.permutation(n + m)
+        probe = pandas.concat([df, pandas.DataFrame({k: extra[k] for k in layout.split(",")})], ignore_index=True).iloc[order].reset_index(drop=True)
+    else:
+        probe = df
+    return Data("frame", df, None, None, probe, {"n": n, "data_seed": seed, "kind": "frame", "cats": [cats_a, cats_b], "columns": layout, "rows_with_unseen_categories": m})
 
 
 # ---------------------------------------------------------------------------
